@@ -163,14 +163,15 @@ End Kahn.
 (* ---- anatomy of build_plan -------------------------------------------------------------- *)
 Section BuildPlan.
   Variable sc : scenario.
+  Variable known : list id.
   Variable locals : list lobj.
   Variable pobjs : list cobj.
   Hypothesis HL : NoDup (map l_id locals).
   Hypothesis HP : NoDup (map c_id pobjs).
   Hypothesis HD : forall c, In c pobjs -> ~ In (c_id c) (map l_id locals).
 
-  Notation pl := (build_plan sc locals pobjs).
-  Definition finv : list id := map l_id (filter l_finv locals).
+  Notation pl := (build_plan sc known locals pobjs).
+  Definition finv : list id := map l_id (filter (fun l => l_finv l || unknown_type sc known locals l) locals).
   Definition applyA : list pobj := map pobj_of_local (filter (fun l => negb (memn (l_id l) finv)) locals).
   Definition pruneA : list pobj := map pobj_of_live pobjs.
   Definition validp (p : pobj) : bool := negb (memn (p_id p) (pl_invalid pl)).
@@ -308,12 +309,13 @@ End BuildPlan.
 (* ---- the task list of the plan ------------------------------------------------------------ *)
 Section Tasks.
   Variable sc : scenario.
+  Variable known : list id.
   Variable locals : list lobj.
   Variable pobjs : list cobj.
   Hypothesis HL : NoDup (map l_id locals).
   Hypothesis HP : NoDup (map c_id pobjs).
   Hypothesis HD : forall c, In c pobjs -> ~ In (c_id c) (map l_id locals).
-  Notation pl := (build_plan sc locals pobjs).
+  Notation pl := (build_plan sc known locals pobjs).
 
   Lemma todo_tasks_of :
     todo_of (tasks_of sc pl) =
@@ -341,7 +343,7 @@ Section Tasks.
     forall j, In j (todo_of (tasks_of sc pl)) <->
               In j (apply_ids pl) \/ (o_prune (sc_opts sc) = true /\ In j (pids pl)).
   Proof.
-    rewrite todo_tasks_of. destruct (bp_layers sc locals pobjs HL HP HD) as [N [A B]].
+    rewrite todo_tasks_of. destruct (bp_layers sc known locals pobjs HL HP HD) as [N [A B]].
     apply NoDup_app_elim in N. destruct N as [N1 [N2 D]].
     assert (EA : forall j, In j (match pl_apply pl with [] => [] | _ => map p_id (concat (pl_apply_layers pl)) end) <-> In j (apply_ids pl)).
     { intros j. unfold apply_ids. destruct (pl_apply pl) eqn:E; [cbn; tauto|]. rewrite <- E. apply A. }
@@ -393,9 +395,9 @@ Section Tasks.
 
   Lemma bp_local_ok' layer p : In layer (pl_apply_layers pl) -> In p layer -> local_ok' pl p.
   Proof.
-    intros HLy Hp. destruct (bp_anatomy sc locals pobjs) as [layers [cyc [_ [_ [_ [_ [_ [LA _]]]]]]]].
+    intros HLy Hp. destruct (bp_anatomy sc known locals pobjs) as [layers [cyc [_ [_ [_ [_ [_ [LA _]]]]]]]].
     rewrite LA in HLy. pose proof (hydrate_In' _ _ _ _ HLy Hp) as Hin.
-    destruct (bp_apply_is_local sc locals pobjs p Hin) as [l [-> _]].
+    destruct (bp_apply_is_local sc known locals pobjs p Hin) as [l [-> _]].
     exists l. split; [reflexivity|]. split; [reflexivity|]. unfold apply_ids. apply in_map_iff.
     exists (pobj_of_local l). auto.
   Qed.
@@ -478,27 +480,44 @@ Section Register.
   Lemma same4_fetch_all ids : forall s, same4 s (fst (fetch_all sc s ids)).
   Proof.
     induction ids as [|i t IH]; intros s; cbn [fetch_all]; [apply same4_refl|].
+    destruct (negb (kind_known sc (r_known s) i)); [apply IH|].
     pose proof (same4_get_obj sc s i) as G. destruct (get_obj sc s i) as [s1 g]. cbn [fst] in G.
     destruct g; cbn [fst]; [exact G|eapply same4_trans; [exact G|apply IH]|].
     specialize (IH s1). destruct (fetch_all sc s1 t) as [s2 r]. cbn [fst] in *. eapply same4_trans; eassumption.
   Qed.
 
-  Lemma fetch_all_complete ids : forall s found, snd (fetch_all sc s ids) = Some found ->
-    forall i c, In i ids -> find_obj (objs (r_cl s)) i = Some c -> In c found.
+  Lemma known_get_obj s i : r_known (fst (get_obj sc s i)) = r_known s.
+  Proof. unfold get_obj. destruct (faulted sc _); [reflexivity|]. destruct (find_obj _ _); reflexivity. Qed.
+  Lemma known_inv_list s : r_known (fst (inv_list sc s)) = r_known s.
+  Proof. unfold inv_list. destruct (faulted sc _); reflexivity. Qed.
+  Lemma known_fetch_all ids : forall s, r_known (fst (fetch_all sc s ids)) = r_known s.
   Proof.
-    induction ids as [|i0 t IH]; intros s found E i c Hi Hc; [destruct Hi|].
+    induction ids as [|i t IH]; intros s; cbn [fetch_all]; [reflexivity|].
+    destruct (negb (kind_known sc (r_known s) i)); [apply IH|].
+    pose proof (known_get_obj s i) as G. destruct (get_obj sc s i) as [s1 g]. cbn [fst] in G.
+    destruct g; cbn [fst]; [exact G|rewrite IH; exact G|].
+    specialize (IH s1). destruct (fetch_all sc s1 t) as [s2 r]. cbn [fst] in *. congruence.
+  Qed.
+
+  (* every candidate whose kind the mapper knows and that is in the cluster is fetched *)
+  Lemma fetch_all_complete ids : forall s found, snd (fetch_all sc s ids) = Some found ->
+    forall i c, In i ids -> kind_known sc (r_known s) i = true -> find_obj (objs (r_cl s)) i = Some c -> In c found.
+  Proof.
+    induction ids as [|i0 t IH]; intros s found E i c Hi Hk Hc; [destruct Hi|].
     cbn [fetch_all] in E.
+    destruct (negb (kind_known sc (r_known s) i0)) eqn:K0.
+    { destruct Hi as [->|Hi]; [rewrite Hk in K0; discriminate|]. eapply IH; eassumption. }
     pose proof (same4_get_obj sc s i0) as G. pose proof (get_obj_found sc s i0) as GF.
-    pose proof (get_obj_notfound sc s i0) as GN.
+    pose proof (get_obj_notfound sc s i0) as GN. pose proof (known_get_obj s i0) as GK.
     destruct (get_obj sc s i0) as [s1 g]. cbn [fst snd] in *. destruct G as [G1 _].
     destruct g as [| |c1].
     - cbn in E. discriminate.
     - destruct Hi as [->|Hi]; [specialize (GN eq_refl); unfold fo in GN; congruence|].
-      eapply IH; [exact E|exact Hi|rewrite G1; exact Hc].
+      eapply IH; [exact E|exact Hi|rewrite GK; exact Hk|rewrite G1; exact Hc].
     - destruct (fetch_all sc s1 t) as [s2 r] eqn:EF. cbn [snd] in E. destruct r as [r|]; [|discriminate].
       cbn in E. injection E as <-. destruct Hi as [->|Hi].
       + left. specialize (GF c1 eq_refl). congruence.
-      + right. eapply (IH s1 r); [rewrite EF; reflexivity|exact Hi|rewrite G1; exact Hc].
+      + right. eapply (IH s1 r); [rewrite EF; reflexivity|exact Hi|rewrite GK; exact Hk|rewrite G1; exact Hc].
   Qed.
 
   Lemma fetch_all_NoDup ids : forall s found, NoDup ids -> snd (fetch_all sc s ids) = Some found ->
@@ -507,6 +526,7 @@ Section Register.
     induction ids as [|i0 t IH]; intros s found ND E.
     - cbn in E. injection E as <-. constructor.
     - inversion ND as [|? ? Hi Ht]; subst. cbn [fetch_all] in E.
+      destruct (negb (kind_known sc (r_known s) i0)); [eapply IH; eassumption|].
       pose proof (get_obj_found sc s i0) as GF.
       destruct (get_obj sc s i0) as [s1 g]. cbn [fst snd] in *.
       destruct g as [| |c1].
